@@ -15,11 +15,15 @@ TreesRich == { Sg(1), Sg(2), Sl(Sg(1), 1, 3), Sl(Sg(2), 0, 2), Ct(<<Sg(3), Sl(Sg
                Pt(Sg(1), "a", 2, 1), Pt(Sg(1), "a0", 2, 2), Pt(Sg(2), "a", 1, 1), Ar(<<Sg(1), Sg(3)>>, "a0"),
                Re(Sg(2), FALSE), Sl(Re(Sg(1), TRUE), 1, 3), Sl(Ct(<<Sg(1), Sg(2)>>), 2, 5),
                Pt(Ct(<<Sg(3), Sg(1)>>), "a", 3, 1), Ar(<<Sg(1), Sg(2)>>, "z0"), Ct(<<>>), Sl(Sg(3), 1, 1),
-               Pt(Ar(<<Sg(1), Sg(3)>>, "a0"), "a", 2, 1), Pt(Ar(<<Sg(3), Sg(2)>>, "a0"), "a0", 2, 2) }
+               Pt(Ar(<<Sg(1), Sg(3)>>, "a0"), "a", 2, 1), Pt(Ar(<<Sg(3), Sg(2)>>, "a0"), "a0", 2, 2),
+               \* a part select overhanging a window that is narrower than the signal: the overhang is dropped
+               Pt(Sl(Sg(1), 0, 2), "a", 2, 1) }
 (* deeper nestings, used for testbench writes *)
 TreesDeep == TreesRich \cup
              { Pt(Sl(Sg(1), 1, 3), "a", 2, 1), Sl(Pt(Sg(1), "a", 3, 1), 1, 3), Ct(<<Pt(Sg(3), "a0", 1, 1), Re(Sg(2), FALSE)>>),
                Ar(<<Sl(Sg(1), 0, 2), Sg(3)>>, "a0"), Pt(Re(Sg(2), FALSE), "a", 2, 2), Pt(Sg(1), "a", 0, 1),
-               Re(Ct(<<Sg(3), Sg(3)>>), TRUE), Ct(<<Sl(Sg(2), 2, 3), Sl(Sg(2), 0, 1)>>) }
+               Re(Ct(<<Sg(3), Sg(3)>>), TRUE), Ct(<<Sl(Sg(2), 2, 3), Sl(Sg(2), 0, 1)>>),
+               Pt(Re(Sl(Sg(2), 0, 2), TRUE), "a", 2, 1), Pt(Pt(Sg(1), "z0", 2, 1), "a", 2, 1),
+               Sl(Pt(Sl(Sg(1), 0, 2), "a0", 2, 1), 0, 2) }
 TreesSmall == { Sg(1), Sl(Sg(1), 1, 3), Sg(2) }
 =============================================================================
